@@ -720,8 +720,6 @@ def observe_gauss(stats, rep, degrees=range(26), detail=False):
     evs, wit = [], {}
     for var in ("std", "padded"):
         for d in degrees:
-            if var == "padded" and d > 9:
-                continue
             if var == "std":
                 q = QuadratureRule.create_quadrature_rule_1D(d)
             else:
@@ -1000,7 +998,8 @@ def main(tier, replay=None):
         k = (clause, kind, e["c"])
         byk[k] = byk.get(k, 0) + 1
         if kind == "gauss":
-            case = dict(kind="gauss", obs="g1d", gauss_degree=e["d"], variant=e["m"], tier=tier)
+            case = dict(kind="gauss", obs="g1d", gauss_degree=e["d"], variant=e["m"], tier=tier,
+                        beyond_table=bool(e["m"] == "padded" and e["d"] > 9))      # the padded rules tabulate 1..5 points
             _, wit = observe_gauss(Stats(), common.Reporter(PID, tier), degrees=[e["d"]], detail=True)
             rep.fail(clause, case, wit.get((e["m"], e["d"])))
             return
